@@ -96,6 +96,28 @@ def run_case(case, workdir):
             oracle.taste_accepts(rec, sub, out)
             import shutil
             shutil.rmtree(out, ignore_errors=True)
+    # history on ONE Colander object: straining twice must give the same output tree
+    if len(names) >= 2 and len(set(names)) == len(names):
+        out = os.path.join(workdir, "out_twice")
+        sel = [names[-1], names[0]]
+        with vpool.controlled():
+            def twice():
+                c = Colander(plotfile=path, limit_level=None, output=out, variables=sel)
+                c.strain()
+                d1 = tree_digest(out)
+                c.strain()
+                return d1, tree_digest(out)
+            st, val = call(twice)
+        rec.exe([dh, "strain_twice"], nontrivial=True, trans=2)
+        sub = {"history": "two strain() calls on one Colander object", "variables": sel}
+        if st == "exc":
+            rec.fail("history_raised", sub, exc_text(val))
+        elif val[0] != val[1]:
+            rec.fail("history_dependent", sub, "second strain() wrote another tree")
+        else:
+            pp = oracle.parse_output(rec, sub, out)
+            if pp is not None:
+                oracle.compare_contents(rec, sub, pp, refn.strain(sel, None))
     if tree_digest(path) != before:
         rec.fail("input_modified", {}, "input plotfile changed")
     rec.sample({"desc": desc, "ops": "strain(variables, limit) over all ordered selections and limits"})
